@@ -267,6 +267,7 @@ def run (ctx):
   _bitfields(ctx, repo, nx)
   _units(ctx, repo, (lof, nx))
   _text_codec(ctx, repo, lof)
+  _lossless_switches(ctx, repo, lof, nx)
 
 def _units (ctx, repo, mods):
   """R-UNITS: inside a decoder `length` (a parameter, or read from the structure's own header; `avail` likewise) counts bytes of this structure while the cursor, its saved start and len(raw) are
@@ -303,6 +304,51 @@ def _units (ctx, repo, mods):
                  % (norm(a), sorted(k_ for k_ in lt[0] if k_ in cur)), (mod, c), 'D3')
   ctx.floor('length/position arithmetic sites', n, 12)
 
+def _lossless_switches (ctx, repo, lof, nx):
+  """(a) NXM entries are only left out of an encoding when a caller asks for it, and no message-level encoder does: packing
+  with omittable=True drops every entry whose mask is all zero, and the decoded match then differs from the encoded one.
+  (b) the body cache of a stats reply holds the body's wire form: what is stored there outside the cache's own property must
+  be bytes that were taken from the input and not consumed since."""
+  n = 0
+  for mod in (nx, lof):
+    for cls in mod.classes.values():
+      for f in cls.methods.values():
+        own = 'omittable' in f.params
+        for c in calls_in(f.node):
+          if call_name(c) not in ('pack', 'get_length'): continue
+          v = kwarg(c, 'omittable')
+          if v is None: continue
+          n += 1
+          if own and isinstance(v, ast.Name) and v.id == 'omittable': continue          # the entry / match codec forwarding its own argument
+          val = repo.try_const(mod, v, cls, default='?')
+          ctx.ob('R-AGREE', f, "`%s` does not leave NXM entries out" % norm(c)[:50], val is False, "omittable=False" if val is False else
+                 "%s encodes its match with omittable=%s: entries whose mask is all zero are dropped from the wire form (and from match_len), so the message decodes to a different match than was encoded" % (f.name, norm(v)), (mod, c), 'D8')
+  ctx.stat('omittable arguments examined', n)
+  sr = lof.classes.get('ofp_stats_reply')
+  if sr is not None:
+    for f in sr.methods.values():
+      if f.name in ('__init__', 'body_data'): continue
+      g = q.cfg_of(f)
+      for t, v, st, k in q.stores_in(f.node):
+        if not (isinstance(t, ast.Attribute) and t.attr == '_body_data' and norm(t.value) == 'self'): continue
+        sn = q.enclosing_stmt_node(g, st)
+        bad_ = None
+        if isinstance(v, ast.Tuple) and len(v.elts) == 2 and isinstance(v.elts[1], ast.Name) and sn is not None:
+          nm = v.elts[1].id
+          IN, defn = q.reaching_defs(g, nm)
+          for d in IN[sn]:
+            if d is g.entry: continue
+            tt, dv, kind = defn[d]
+            if dv is not None and not isinstance(dv, tuple) and any(isinstance(x, ast.Name) and x.id == nm for x in ast.walk(dv)): bad_ = d
+        elif not (isinstance(v, ast.Tuple) and all(isinstance(e, ast.Constant) and e.value is None for e in v.elts)):
+          bad_ = sn
+        if bad_ is not None:
+          ctx.bad('R-OWN', f, "the body cache holds the body's wire form (`%s`)" % norm(st)[:50],
+                  "%s stores into the pack cache a buffer that `%s` has already cut down while parsing: for list-typed replies it is empty by then, so packing the decoded reply again emits a header that claims the body and no body"
+                  % (f.name, bad_.text(40) if hasattr(bad_, 'text') else '?'), (lof, st), 'D5')
+        else:
+          ctx.ob('R-OWN', f, "the body cache holds the body's wire form (`%s`)" % norm(st)[:50], True, "untouched input bytes / reset", (lof, st), 'D5')
+
 def _text_codec (ctx, repo, lof):
   """fixed-width zero-padded strings (port names, descriptions, table names): the reader must accept every byte string the
   wire can carry and the writer must produce one byte per character, i.e. both use the same total single-byte codec"""
@@ -337,6 +383,26 @@ def _text_codec (ctx, repo, lof):
                                           else "a character above 0x7f becomes several bytes: the field overflows its fixed width or the value read back differs"), (lof, c), 'D2')
       else:
         ctx.undecided('R-AGREE', f, "zero-padded strings use a total single-byte codec", "codec %r is not in the table of known codecs" % (nm_,), (lof, c), 'D2')
+  # the writer by evaluation: a string that fills its field exactly keeps every character (the fields are zero *padded*, not
+  # zero terminated - _validate accepts a 16-character port name), shorter ones are padded with NULs, bytes pass through
+  gw = q.cfg_of(wr)
+  wrong = []; unknown = 0
+  def hook_types (call, env=None):
+    return (False, None)
+  for data, ln, want in (('abcd', 4, b'abcd'), ('ab', 4, b'ab\x00\x00'), (b'xyz', 3, b'xyz'), ('', 2, b'\x00\x00'), ('p' * 16, 16, b'p' * 16)):
+    res = set()
+    env = q.Env({wr.params[0]: data, wr.params[1]: ln}, [((lambda e: isinstance(e, ast.Call) and call_name(e) == 'isinstance' and len(e.args) == 2 and norm(e.args[1]) == 'str'), isinstance(data, str)),
+                                                            ((lambda e: isinstance(e, ast.Call) and call_name(e) == 'isinstance' and len(e.args) == 2 and norm(e.args[1]) == 'bytes'), isinstance(data, bytes))])
+    for p_, e_ in q.paths_under(repo, lof, gw, env, gw.entry, [n for n in gw.nodes if n.kind == 'return'], None, limit=20):
+      try: res.add(q.eval_env2(repo, lof, p_[-1].ast.value, e_, None))
+      except Exception: res.add('?')
+    if len(res) != 1 or '?' in res or not isinstance(list(res)[0], bytes): unknown += 1
+    elif list(res)[0] != want: wrong.append((data, ln, list(res)[0], want))
+  if unknown:
+    ctx.undecided('R-AGREE', wr, "_packzs keeps every character of a string that fits and pads with NULs", "%d sample(s) not evaluable" % unknown, wr, 'D2')
+  else:
+    ctx.ob('R-AGREE', wr, "_packzs keeps every character of a string that fits and pads with NULs", not wrong, "5 samples" if not wrong else
+           "_packzs(%r, %d) evaluates to %r, expected %r: a name that fills its field is cut, so the decoded object differs from the encoded one" % wrong[0], wr, 'D2')
   dn = set(x for x in found['decode'][0]); en = set(x for x in found['encode'][0])
   if dn and en and all(isinstance(x, str) for x in dn | en):
     ctx.ob('R-SIB', rd, "reader and writer of zero-padded strings use the same codec", dn == en, "both %s" % sorted(dn) if dn == en else "reader decodes with %s, writer encodes with %s" % (sorted(dn), sorted(en)), rd, 'D2')
